@@ -213,7 +213,7 @@ def lifeScript (l : VRing Int) (n : Nat) : List Char → Nat → Option (VRing I
 
 def lifeCount (n : Nat) (script : String) : String :=
   match lifeScript (VRing.mk' 0 n) n (if script == "-" then [] else script.toList) 0 with
-  | some l => s!"{l.overLive} {l.deadDtor} {l.deadRead} {l.ctor} {l.dtor}"
+  | some l => s!"{l.overLive} {l.deadDtor} {l.deadRead} {(l.ctor : Int) - l.dtor}"
   | none => "fault"
 
 /-- `arr <n> <script>`: `unbounded_array<T>(n)` under fill / clear / self-assignment / assignment from an
@@ -225,7 +225,7 @@ def arrScript (n : Nat) (toks : List String) : String :=
   let rec go (a : UArr Int) (acc : List String) : List String → String
     | [] =>
       let f := a.invalidate
-      ";".intercalate acc.reverse ++ s!" | {f.ctor} {f.dtor} {f.deadDtor} {f.deadAssign}"
+      ";".intercalate acc.reverse ++ s!" | {(f.ctor : Int) - f.dtor} {f.deadDtor} {f.deadAssign}"
     | tk :: rest =>
       let k := ((tk.drop 1).toNat?).getD 0
       let a' : Option (UArr Int) :=
